@@ -621,6 +621,9 @@ def parsesingle(s, strictmode=True, expansionlimit=None, convertpos=False, proce
     'a\nb' will only return a node for 'a', leaving b unparsed'''
     p = _parser(s, strictmode=strictmode, expansionlimit=expansionlimit, proceedonerror=proceedonerror)
     tree = p.parse()
+    if not isinstance(tree, ast.node):
+        # the input holds no command (blanks, newlines, comments)
+        return None
     if convertpos:
         ast.posconverter(s).visit(tree)
     return tree
@@ -648,6 +651,9 @@ def parse(s, strictmode=True, expansionlimit=None, convertpos=False, proceedoner
     '''
     p = _parser(s, strictmode=strictmode, expansionlimit=expansionlimit, proceedonerror=proceedonerror)
     parts = [p.parse()]
+    if not isinstance(parts[0], ast.node):
+        # the input holds no command (blanks, newlines, comments)
+        return []
 
     class endfinder(ast.nodevisitor):
         def __init__(self):
